@@ -781,6 +781,16 @@ def namesUpdate : NameTable → NameTable → NameTable
   | orig, [] => orig
   | orig, (k, v) :: t => namesUpdate (setName k v orig) t
 
+/-- `{(n.nameID, n.platformID, n.platEncID, n.langID): n for n in names}`: a dict comprehension over a record list —
+    the FIRST occurrence of a key fixes its position, the LAST record under a key supplies the value -/
+def namesDict (t : NameTable) : NameTable := namesUpdate [] t
+
+/-- `InfoCompiler.setupTable_name`, statement by statement: `temp_names = {…}`, `orig_names = {…}`,
+    `orig_names.update(temp_names)`, `orig.names = list(orig_names.values())`.  (`infoCompile` applies `namesUpdate` to
+    the two record lists directly; `Props/C16Names.lean` proves that this is the same list whenever the original
+    font's records have distinct keys, which `C16_names_nodup` shows for every compiled font.) -/
+def namesMerge (orig temp : NameTable) : NameTable := namesUpdate (namesDict orig) (namesDict temp)
+
 def isVheaField : Field → Bool
   | .vhea_ascent | .vhea_descent | .vhea_lineGap | .vhea_caretSlopeRise | .vhea_caretSlopeRun | .vhea_caretOffset => true
   | _ => false
